@@ -42,6 +42,23 @@ Theorem C38_restore_full_backup_no_delete : forall h since mts,
 Proof. exact restore_full_backup_no_delete. Qed.
 Print Assumptions C38_restore_full_backup_no_delete.
 
+(** Backup attempted while cache snapshots are disabled (Shard.Free, compactions switched
+    off): it is refused exactly when the cache holds points; the retry after re-enabling
+    restores to the same reads. *)
+Theorem C38_backup_refused_iff_cache_nonempty : forall s,
+  quiescent s -> (snd (snapshot_refused s) = true <-> hot s <> []).
+Proof. intros s Q. apply (snapshot_refused_flushed s Q). Qed.
+Print Assumptions C38_backup_refused_iff_cache_nonempty.
+
+Theorem C38_restore_full_backup_after_refusal : forall s since mts,
+  quiescent s ->
+  let s' := snapshot_now (fst (snapshot_refused s)) in
+  length mts = length (files s') ->
+  Forall (fresh_entry since) (with_mtimes mts (files s')) ->
+  forall k t, abs (restore_state (backup_sel since (with_mtimes mts (files s')))) k t = abs s k t.
+Proof. exact restore_full_backup_after_refusal. Qed.
+Print Assumptions C38_restore_full_backup_after_refusal.
+
 (** The former counter-example (write, snapshot, delete, backup, restore) now keeps the
     delete; an incremental archive holding a .tsm without its older tombstone file does not. *)
 Example C38_restore_keeps_delete :
